@@ -2472,3 +2472,4 @@ def replay(ctx, payload):
         eval_sessions(ctx, [c])
     else:
         eval_codec(ctx, [c])
+THEOREMS += ['routes_filter', 'gen_unpack_routing_table_entry']   # translator tie, third round (Props/C10Gen.lean)
